@@ -195,7 +195,7 @@ Proof. exact example_guard. Qed.
 
 (** The full statement  [C01_spell_roundtrip]:
       forall cs inv, admissible cs inv = true -> model_roundtrip cs inv = true
-    is FALSE of the faithful model, two ways (F-C01a, F-C01b below).
+    is FALSE of the faithful model, three ways (F-C01a, F-C01b, F-C01c below).
 
     WHAT STILL LIES OUTSIDE the proved fragment ([C01_spell_roundtrip_partial_widest2],
     guard [guard_wide2]) although [admissible] (Spec/C01Spec.v) allows it --
@@ -203,6 +203,7 @@ Proof. exact example_guard. Qed.
       findings
        1. F-C01a: a task with a NON-EMPTY LIST DEFAULT ([list_default_ok] in [guard_w]);
        2. F-C01b: a glued value "-nVALUE" whose VALUE contains "=";
+       2'. F-C01c: a positional parameter WITH A DEFAULT given by position;
       spelling forms not yet proved (the correspondence and the bounded sweep
       cover them; no disagreement known)
        3. optional-value flags (a) with the value GLUED ("-lfile"), (b) of list
@@ -243,6 +244,20 @@ Theorem C01_spell_roundtrip_refuted_glued_equals :
     spell cs inv = ["t"; "-nk=v"] /\
     model_parse cs ICore false (spell cs inv) = Err EParse.
 Proof. exact refuted_glued_equals. Qed.
+
+(** F-C01c: a positional parameter that declares a default cannot be given by
+    position ("inv t val" for [@task(positional=['name']) def t(c, name='x')]
+    is the parse error "No idea what 'val' is!"; "inv t --name val" works):
+    only positionals whose value is still None are filled positionally. *)
+Theorem C01_spell_roundtrip_refuted_positional_default :
+  exists cs inv,
+    admissible cs inv = true /\ model_roundtrip cs inv = false /\
+    spell cs inv = ["t"; "val"] /\
+    expected cs inv = [(Some "t", [("name", AStr "val")])] /\
+    model_parse cs ICore false (spell cs inv) = Err EParse /\
+    (exists r, model_parse cs ICore false ["t"; "--name"; "val"] = Ok r /\
+               nth_error (o_ctxs r) 1 = Some (Some "t", [("name", AStr "val")])).
+Proof. exact refuted_positional_default. Qed.
 
 (** A TEST, not the property: all 9576 invocations
       u <name in 6 forms x 4 values (plain, dash-leading, a task name, with "=")>
